@@ -368,15 +368,86 @@ def update_parts(path):
     return pre_fn, post_fn, pair_fn, pygen.module_constants(tree)
 
 
-def update_source(path=None):
+
+# ---------------------------------------------------------------------------------------------------------------------
+# TestGraph.flag_intersection (avocado_i2n/cartgraph/graph.py): the body of its loop over the graph's nodes
+
+FI_BEFORE = '''
+activity = "running" if flag_type == "run" else "cleanup"
+logging.debug(f"Flagging test nodes for {activity}")
+'''
+
+FI_PRELUDE = [
+    "/-- `flag_type` as the callers pass it (`update` passes the literals \"run\" / \"clean\"; anything but \"run\" sets the",
+    "clean policy) -/",
+    "def flagTypeStr : FlagType → String | .run => \"run\" | .clean => \"clean\"",
+]
+
+
+def flag_intersection_spec():
+    return Spec(
+        "genFlagIntersectionStep",
+        binders=[("g", "UGraph"), ("otherNames", "List String"), ("ty", "FlagType"), ("p", "Pol"),
+                 ("skip_object_roots", "Bool"), ("skip_shared_root", "Bool"), ("test_node", "Nat")],
+        params={"test_node": None}, ret="unit", monad="StateT Flags (Except Err)", effect_loops=True,
+        atoms={"graph.get_nodes(param_key='name', param_val=test_node.setless_form + '$')":
+                   ("(otherNames.filter (fun nm => endsWithStr nm (g.node test_node).setless))", "slist"),
+               "test_node.is_shared_root()": ("(g.node test_node).sharedRoot", "bool"),
+               "test_node.is_object_root()": ("(!(g.node test_node).objectRoot.isEmpty)", "bool"),
+               "skip_shared_root": ("skip_shared_root", "bool"), "skip_object_roots": ("skip_object_roots", "bool"),
+               "flag_type": ("(flagTypeStr ty)", "str")},
+        stmts={"test_node.should_run = flag.__get__(test_node)": "modify (fun f => f.set .run p test_node)",
+               "test_node.should_clean = flag.__get__(test_node)": "modify (fun f => f.set .clean p test_node)"},
+        raises=[("ValueError", "Cannot map {} into a unique test node from {}", "Err.valueError")],
+        ignored_calls={"logging.debug", "logging.info"}, prelude=FI_PRELUDE,
+        doc="ONE iteration of the loop of `TestGraph.flag_intersection` (avocado_i2n/cartgraph/graph.py) for the node with "
+            "index `test_node`: `otherNames` = the names of the other graph's nodes, the regular expression "
+            "`<setless form>$` is the hand recogniser `endsWithStr` (validated per run by the C15 correspondence), `p` = the "
+            "policy `flag` installs; `continue` = leaving the body")
+
+
+FI_SKELETON = [
+    "/-- `for test_node in self.nodes: <genFlagIntersectionStep>` (matched structurally: exactly this loop, no `else`, no",
+    "`break` / `return`; the two statements in front of it only feed log lines and are pinned) -/",
+    "def genFlagIntersection (g : UGraph) (otherNames : List String) (ty : FlagType) (p : Pol)",
+    "    (skip_object_roots skip_shared_root : Bool) : StateT Flags (Except Err) Unit :=",
+    "  (List.range g.nodes.length).forM fun test_node =>",
+    "    genFlagIntersectionStep g otherNames ty p skip_object_roots skip_shared_root test_node",
+]
+
+
+def flag_intersection_parts(path):
+    tree = ast.parse(open(path).read(), filename=path)
+    fn = pygen.find_function(tree, "TestGraph.flag_intersection")
+    if [a.arg for a in fn.args.args] != ["self", "graph", "flag_type", "flag", "skip_object_roots", "skip_shared_root"]:
+        raise Unsupported("flag_intersection: parameters changed")
+    body = list(fn.body)
+    if body and isinstance(body[0], ast.Expr) and isinstance(body[0].value, ast.Constant) and isinstance(body[0].value.value, str):
+        body = body[1:]
+    if len(body) != 3 or pygen.dump_stmts(body[:2]) != pygen.norm_block(FI_BEFORE):
+        raise Unsupported("flag_intersection: expected two log-only statements and the loop over self.nodes")
+    loop = body[2]
+    if not (isinstance(loop, ast.For) and ast.unparse(loop.target) == "test_node" and ast.unparse(loop.iter) == "self.nodes"
+            and not loop.orelse):
+        raise Unsupported("flag_intersection: expected `for test_node in self.nodes:` without else")
+    for n in pygen._own_loop_nodes(loop.body):
+        if not isinstance(n, ast.Continue):
+            raise Unsupported(f"flag_intersection:{n.lineno}: `{type(n).__name__.lower()}` in the loop")
+    return _synth("flag_intersection_step", ["test_node"], loop.body, loop), pygen.module_constants(tree)
+
+
+def update_source(path=None, graph_path=None):
     path = path or pygen._src("PYGEN_UPDATE_SRC", "avocado_i2n/intertest_setup.py")
     pre_fn, post_fn, pair_fn, consts = update_parts(path)
     d1 = pygen.translate(pre_fn, remove_set_spec(), consts)
     d2 = pygen.translate(post_fn, flag_passes_spec(), consts)
     d3 = _translate_loop_body(pair_fn, bridge_pair_spec(), consts)
+    graph_path = graph_path or pygen._src("PYGEN_GRAPH_SRC", "avocado_i2n/cartgraph/graph.py")
+    fi_fn, fi_consts = flag_intersection_parts(graph_path)
+    d4 = _translate_loop_body(fi_fn, flag_intersection_spec(), fi_consts)
     return pygen.render_file("harness/pygen_pxupdate.py:extract_update (called by harness/props/c15.py:extract) from "
-                             "avocado_i2n/intertest_setup.py", ["I2N.Lemmas.ToolsUpdate"], "I2N.Extracted.GenUpdate",
-                             ["I2N.Tools"], [d1, d2, d3, UPD_SKELETON])
+                             "avocado_i2n/intertest_setup.py and avocado_i2n/cartgraph/graph.py", ["I2N.Lemmas.ToolsUpdate"], "I2N.Extracted.GenUpdate",
+                             ["I2N.Tools"], [d1, d2, d3, UPD_SKELETON, d4, FI_SKELETON])
 
 
 def _translate_loop_body(fn, spec, consts):
